@@ -347,7 +347,9 @@ def _utc_chunk(job):
             g = eval_exact(tg_auto if ov is None else tg_over, e2, prims)
         except NotEvaluable as e:
             return n, [("not-evaluable", "", y, "%s at %d-%02d-%02d %s" % (e, y, m, d, tkind))]
-        except (TypeError, ValueError, ZeroDivisionError, IndexError, KeyError) as e:
+        except (TypeError, ValueError, IndexError, KeyError) as e:     # the evaluator's own limits are not evidence against the code
+            return n, [("not-evaluable", "", y, "%s: %s at %d-%02d-%02d %s" % (type(e).__name__, e, y, m, d, tkind))]
+        except ZeroDivisionError as e:
             probs.append(("error", cls, y, "%s: %s at %d-%02d-%02d %s UTC%s" % (type(e).__name__, e, y, m, d, tkind, "" if ov is None else " leap_seconds=%d" % ov)))
             continue
         n += 1
